@@ -12,8 +12,8 @@
 (*    fclose   f1 a = a + x           (closure over a global)              *)
 (*    fshadow  f2 x = x * 2           (parameter shadows the global)       *)
 (*    fdef     f3 a, b := x = a + b   (default argument refers to global)  *)
-(*    lam      l4 = (x -> x + 1)(x)   (lambda parameter shadows; argument  *)
-(*                                     is the global)                      *)
+(*    lam      l4 = [x].map(x -> x + 1).to_list()   (lambda parameter      *)
+(*                                     shadows the global in the list)     *)
 (*    strlit   print! "x", x          (same spelling in a string literal)  *)
 (*    call     r5 = f1 x                                                   *)
 (* The state keeps, per binding, nothing but its number: the occurrences   *)
@@ -62,9 +62,9 @@ FDef(g) == /\ Go /\ "fdef" \in Templates /\ g \in Defined
            /\ Line(<<T(FName(N + 1), nb + 1), K(" "), T("a", nb + 2), K(", "), T("b", nb + 3), K(" := "), T(g, glob[g]), K(" = "),
                      T("a", nb + 2), K(" + "), T("b", nb + 3)>>)
            /\ funs' = Append(funs, [name |-> FName(N + 1), b |-> nb + 1, arity |-> 1]) /\ nb' = nb + 3 /\ UNCHANGED glob
-\* l = (p -> p + 1)(g)
+\* l = [g].map(p -> p + 1).to_list()      (the lambda parameter may be spelled like the global)
 Lam(p, g) == /\ Go /\ "lam" \in Templates /\ g \in Defined
-             /\ Line(<<T("l" \o ToString(N + 1), nb + 1), K(" = ("), T(p, nb + 2), K(" -> "), T(p, nb + 2), K(" + 1)("), T(g, glob[g]), K(")")>>)
+             /\ Line(<<T("l" \o ToString(N + 1), nb + 1), K(" = ["), T(g, glob[g]), K("].map("), T(p, nb + 2), K(" -> "), T(p, nb + 2), K(" + 1).to_list()")>>)
              /\ nb' = nb + 2 /\ UNCHANGED <<glob, funs>>
 \* r = f g ; print! r
 Call(i, g) == /\ Go /\ "call" \in Templates /\ i \in 1..Len(funs) /\ g \in Defined
